@@ -3,6 +3,7 @@
 From Coq Require Import Ascii Lia ZifyBool ZifyN.
 From Coq Require String DecimalN DecimalPos DecimalFacts.
 From PL Require Import Model.Json Proofs.JsonProofs.
+From PL Require Proofs.TextPrims.
 Import String.StringSyntax.
 Local Open Scope N_scope.
 
@@ -819,26 +820,41 @@ Proof.
   destruct (nth_in_or_default (N.to_nat d) al "0"%char) as [Hin| ->]; [now apply Hal|reflexivity].
 Qed.
 
-Lemma fixed_plain al base k n : forallb plain_char al = true -> plain_str (fixed al base k n) = true.
-Proof.
-  intros Hal. revert n; induction k as [|k IH]; intros n; cbn [fixed]; [reflexivity|].
-  unfold plain_str in *. rewrite forallb_app, IH. cbn [forallb]. now rewrite digit_of_plain.
-Qed.
-
 Lemma hex_al_plain : forallb plain_char hex_al = true. Proof. vm_compute. reflexivity. Qed.
-Lemma b32_al_plain : forallb plain_char b32_al = true. Proof. vm_compute. reflexivity. Qed.
+
+(* the id printers of Model/Ids.v emit plain characters only *)
+Lemma hex_char_plain d : d < 16 -> plain_char (Ids.hex_char d) = true.
+Proof.
+  intros L. apply (TextPrims.below_forall (fun d => plain_char (Ids.hex_char d)) 16);
+    [vm_compute; reflexivity|exact L].
+Qed.
+Lemma b32_char_plain d : d < 32 -> plain_char (Ids.b32_char d) = true.
+Proof.
+  intros L. apply (TextPrims.below_forall (fun d => plain_char (Ids.b32_char d)) 32);
+    [vm_compute; reflexivity|exact L].
+Qed.
+Lemma digits_plain (f : N -> ascii) base k n :
+  base <> 0 -> (forall d, d < base -> plain_char (f d) = true) ->
+  forallb plain_char (map f (Ids.digits_be base k n)) = true.
+Proof.
+  intros Hb Hf. rewrite forallb_forall. intros x Hx. apply in_map_iff in Hx as [d [<- Hd]].
+  apply Hf. pose proof (TextPrims.digits_be_bound base k n Hb) as F. rewrite Forall_forall in F.
+  now apply F.
+Qed.
 
 Lemma print_uuid_plain n : plain_str (print_uuid n) = true.
 Proof.
-  unfold print_uuid, plain_str.
-  pose proof (fixed_plain hex_al 16 32 n hex_al_plain) as Hh. unfold plain_str in Hh.
-  set (h := fixed hex_al 16 32 n) in *.
+  unfold print_uuid, Ids.print_uuid, plain_str.
+  pose proof (digits_plain Ids.hex_char 16 32 n ltac:(discriminate) hex_char_plain) as Hh.
+  set (h := map Ids.hex_char (Ids.digits_be 16 32 n)) in *.
   repeat (rewrite forallb_app || cbn [forallb]).
   rewrite !forallb_firstn, !forallb_skipn by (try apply forallb_skipn; exact Hh).
   reflexivity.
 Qed.
+Lemma print_ulid_plain n : plain_str (print_ulid n) = true.
+Proof. apply (digits_plain Ids.b32_char 32 26 n); [discriminate|exact b32_char_plain]. Qed.
 Lemma print_oid_plain o : plain_str (print_oid o) = true.
-Proof. destruct o; [apply print_uuid_plain|apply fixed_plain, b32_al_plain]. Qed.
+Proof. destruct o; [apply print_uuid_plain|apply print_ulid_plain]. Qed.
 
 Lemma to_json_oid_plain o : plain_json (to_json_oid o) = true.
 Proof. apply print_oid_plain. Qed.
